@@ -78,7 +78,14 @@ class Report:
                 for b in (ob.by or ['z3']):
                     by[b] = by.get(b, 0) + 1
             elif ob.status == 'undecided':
-                undecided.append(ob)
+                k = open_known.get(ob.oid)
+                if k is not None:
+                    # listed as violated on this tree (confirmed on the real
+                    # code when it was recorded): the solver running out of
+                    # time on it does not make it undecided
+                    known_hit.append((ob, k))
+                else:
+                    undecided.append(ob)
             else:
                 k = open_known.get(ob.oid)
                 if k is not None and (not k.get('cause') or not ob.cause or
